@@ -5,6 +5,7 @@ import os
 import pickle
 import sys
 
+from . import c14graph as GR
 from . import persistlib as PL
 from . import subserver as SUB
 from .seqlib import exc_name
@@ -25,7 +26,14 @@ RULE = ("P: a HasTraits class is drawn from a menu of 25 trait declarations (Int
         "#CT: every trait type of traits.api x options x {__getstate__/__setstate__, pickle 0/2/5, copy, deepcopy} x "
         "{as_ctrait, class trait}, behaviour on 22 sample values compared before/after, in a subprocess (a crash is an "
         "observation). #OBS: declared @observe / @on_trait_change / Property(observe=) / cached_property on the copy. "
-        "#G: Instance graphs (chain, shared child, parent cycle, dict of children). #PH: traits whose validator "
+        "#G: Instance graphs (chain, shared child, parent cycle, dict of children). #GV: plain TraitList / TraitSet / "
+        "TraitDict objects as trait values (Instance, Any, inside List / Dict traits) whose validators are bound methods "
+        "of the owner / of a policy object it holds / plain functions x every copy operation: where the copy is deep the "
+        "copied container validates on behalf of the COPY (same function bound to the copy's counterpart; after copy and "
+        "original diverge every mutator rejects what the copy forbids and accepts what only the copy allows). #GA: deep "
+        "copies of containers / tuples of objects sharing sub-objects (value of a List(Instance) / Dict trait, tuple, "
+        "list, dict, nested, copy_traits(copy='deep') with / without / None memo, pickles, __deepcopy__ with an empty "
+        "memo) x 6 sharing shapes: the copy is isomorphic to the source (exactly the sharing it had) and disjoint. #PH: traits whose validator "
         "depends on the initialisation phase - UUID(), UUID(can_init=True) (also transient), ReadOnly assigned in the "
         "constructor / later / never / declared with a default, Constant, two custom TraitTypes that accept a value "
         "only while traits_inited() is false - x value given / generated and read / generated and never read x object "
@@ -112,6 +120,10 @@ def corpus():
         "P|dy v 0 - T 0 q||pickle 2", "P|dy v 0 - T 0 q||copy", "P|dy v 0 - T 0 q;l v 0 d L 0 9 T 0 l 0||pickle 0;pickle 5",
         "D|clone d", "D|deepcopy", "D|clone s", "N|clone n|d|main", "N|clone n|d|parts", "N|clone s|d|main",
         "#DEL proto-both both clone n", "#DEL proto-before color deepcopy", "#G cycle deepcopy", "#G shared pickle 4",
+        # C14-m12 / C14-m13 (seeded): validators of plain containers re-bound to the copy; sharing kept by deep copies
+        # of containers of objects
+        "#GV self|inst|list|deepcopy", "#GV policy|inst|dict|clone n", "#GV self|any|set|clone d",
+        "#GA two-share|list-value", "#GA two-share|copy_traits-nomemo", "#GA cross|tuple", "#GA cycle|deepcopy-memo-given",
         # F17: a CTrait without __dict__
         '#CT {"name": "raw:CTrait(0)", "how": "copy", "via": "as_ctrait"}',
     ]
@@ -221,6 +233,10 @@ def generate(rng, tier):
         for shape in ("chain", "shared", "cycle", "dict", "self"):
             yield "#G %s %s" % (shape, op)
     for c in gen_ph(rng, {"quick": 100, "thorough": 4000}.get(tier, 1000)):
+        yield c
+    for c in GR.gen_gv(COPY_OPS if tier != "quick" else ["pickle 2", "copy", "deepcopy", "clone n", "clone s", "clone d"]):
+        yield c
+    for c in GR.gen_ga():
         yield c
 
 
@@ -1223,6 +1239,10 @@ def run_impl(case):
         return run_del(case)
     if case.startswith("#G "):
         return run_g(case)
+    if case.startswith("#GV "):
+        return GR.run_gv(case, PL.do_copy, PL.COPY_SIG)
+    if case.startswith("#GA "):
+        return GR.run_ga(case)
     if case.startswith("#PH "):
         return run_ph(case)
     raise ValueError(case)
